@@ -180,7 +180,9 @@ func (r *renderer) node(n *Node, level int, comma bool) {
 		}
 	case KArray:
 		if len(n.Items) == 0 {
-			if r.on(r.st.ExtraBlank) {
+			if r.st.Comments && r.on(true) {
+				r.sb.WriteString("[ ### no items ### ]") // a block comment between the brackets: still empty
+			} else if r.on(r.st.ExtraBlank) {
 				r.sb.WriteString("[ ]") // blanks between the brackets: as empty as []
 			} else {
 				r.sb.WriteString("[]")
